@@ -656,32 +656,63 @@ func genBackends(c *ctx) *leanFile {
 	}
 	l.strList("reloadPathPartialOps", partial, okPartial, "a function of the reload / etcd-event path was not found")
 
-	// ---- static Reload guard ----
+	// ---- static Reload guards ----
+	//   if s.compatBackend != nil { ...; return }
+	//   either (old)  if backendIds, _ := ...; backendIds != "" { <everything> }     -> reloadIgnoresEmptyIds = true
+	//   or     (now)  if backendIds == "" { if allowAll || allowedUrls != "" { ...; return } }  -> false
 	staticFile := c.file("backend_storage_static.go")
-	guard := false
-	compatGuard := false
+	compatGuard, neGuard, eqGuard, modeSwitchReturn := false, false, false, false
 	if fd := findFunc(staticFile, "backendStorageStatic", "Reload"); fd != nil && fd.Body != nil {
 		ast.Inspect(fd.Body, func(n ast.Node) bool {
 			is, ok := n.(*ast.IfStmt)
 			if !ok {
 				return true
 			}
-			if be, ok := is.Cond.(*ast.BinaryExpr); ok {
-				if be.Op == token.NEQ && isIdent(be.X, "backendIds") {
-					if v, ok := strLit(be.Y); ok && v == "" {
-						guard = true
+			be, ok := is.Cond.(*ast.BinaryExpr)
+			if !ok {
+				return true
+			}
+			if isIdent(be.X, "backendIds") {
+				if v, ok := strLit(be.Y); ok && v == "" {
+					if be.Op == token.NEQ {
+						neGuard = true
+					}
+					if be.Op == token.EQL {
+						eqGuard = true
+						// the only return inside must sit under `allowAll || allowedUrls != ""`
+						returns, guarded := 0, 0
+						ast.Inspect(is.Body, func(m ast.Node) bool {
+							if _, ok := m.(*ast.ReturnStmt); ok {
+								returns++
+							}
+							if inner, ok := m.(*ast.IfStmt); ok {
+								if c2, ok := inner.Cond.(*ast.BinaryExpr); ok && c2.Op == token.LOR && isIdent(c2.X, "allowAll") {
+									if r, ok := c2.Y.(*ast.BinaryExpr); ok && r.Op == token.NEQ && isIdent(r.X, "allowedUrls") {
+										for _, st := range inner.Body.List {
+											if _, ok := st.(*ast.ReturnStmt); ok {
+												guarded++
+											}
+										}
+									}
+								}
+							}
+							return true
+						})
+						modeSwitchReturn = returns == 1 && guarded == 1
 					}
 				}
-				if be.Op == token.NEQ && isIdent(be.Y, "nil") {
-					if se, ok := be.X.(*ast.SelectorExpr); ok && se.Sel.Name == "compatBackend" {
-						compatGuard = true
-					}
+			}
+			if be.Op == token.NEQ && isIdent(be.Y, "nil") {
+				if se, ok := be.X.(*ast.SelectorExpr); ok && se.Sel.Name == "compatBackend" {
+					compatGuard = true
 				}
 			}
 			return true
 		})
 	}
-	l.boolean("reloadOnlyInBackendsMode", guard && compatGuard, guard && compatGuard,
-		"backendStorageStatic.Reload: guards `s.compatBackend != nil` / `backendIds != \"\"` not found")
+	l.boolean("reloadCompatGuard", compatGuard, compatGuard, "backendStorageStatic.Reload: guard `s.compatBackend != nil` not found")
+	okIds := (neGuard && !eqGuard) || (eqGuard && !neGuard && modeSwitchReturn)
+	l.boolean("reloadIgnoresEmptyIds", neGuard, okIds,
+		"backendStorageStatic.Reload: neither `if backendIds != \"\" {…}` nor `if backendIds == \"\" { if allowAll || allowedUrls != \"\" { return } }` found")
 	return l
 }
